@@ -218,6 +218,23 @@ type ROuter2 struct {
 	N int `db:"n"`
 }
 
+// HCity / HStreet / HHome: a pointer embedded inside a struct that is itself embedded by
+// value; with the inner pointer nil the members promoted through it are unreachable (an
+// error, not a panic).
+type HCity struct {
+	City string `db:"city"`
+}
+
+type HStreet struct {
+	*HCity
+	Street string `db:"street"`
+}
+
+type HHome struct {
+	HStreet
+	No int `db:"no"`
+}
+
 // ScanKinds has Scanner members of non-struct kinds.
 type ScanKinds struct {
 	ID   int     `db:"id"`
@@ -494,6 +511,7 @@ var Entries = []Entry{
 	e(Levels{}, "slice", false),
 	e(Graded{}, "struct", false, "id", "lv", "blob", "plv"),
 	e(ScanKinds{}, "struct", false, "id", "lv", "tags", "plv"),
+	e(HHome{}, "struct", false, "city", "street", "no"),
 	e(PValued{}, "struct", false, "id", "lv", "n"),
 }
 
